@@ -76,6 +76,7 @@ type DB struct {
 	notify    chan struct{} // closes on WAL change
 	chkMu     sync.RWMutex  // checkpoint lock
 	opened    bool          // true if Open() was called and Close() not yet called
+	openMu    sync.Mutex    // serializes Open() calls
 	syncState syncState
 	syncDiag  diagState
 
@@ -776,6 +777,12 @@ func (db *DB) EnsureExists(ctx context.Context) error {
 
 // Open initializes the background monitoring goroutine.
 func (db *DB) Open() (err error) {
+	// Two concurrent Open calls (e.g. two IPC start requests) would both pass
+	// the "already open" check below, write the compactor settings without
+	// synchronization and start two monitor goroutines.
+	db.openMu.Lock()
+	defer db.openMu.Unlock()
+
 	db.mu.Lock()
 	if db.opened {
 		db.mu.Unlock()
